@@ -41,7 +41,7 @@ fn run_job<K: Key>(run: &mut Run, job: &Job, deep_depth: usize, budget_s: f64) -
         mode: Mode::Hist,
         deep_depth,
     };
-    engine::explore(run, "hist", &x, budget_s * 0.6, budget_s * 0.4)
+    engine::explore(run, "hist", &x, budget_s * 0.6, budget_s)
 }
 
 fn main() {
@@ -95,7 +95,8 @@ fn main() {
     let mut outs = Vec::new();
     let mut carry = 0.0; // unused time of earlier jobs is handed on
     for job in &jobs {
-        let budget = total * job.share + carry;
+        // quick: fixed bounds, the budget is only a cap -> every job may use what is left of the part's budget
+        let budget = if run.tier == Tier::Quick { run.remaining_s() * 0.95 } else { total * job.share + carry };
         let t = run.elapsed();
         let out = match job.key_type {
             "u64" => run_job::<u64>(&mut run, job, deep_depth, budget),
